@@ -200,7 +200,7 @@ def install_misc(ex, st):
         lambda ex, c, a: ok(a[0]))
     add(r'(?:std::sync::atomic::)?AtomicUsize::(fetch_add|load|store)', lambda ex, c, a: 0)
     add(r'<(?:blockdir::)?BlockDirStats as Default>::default', lambda ex, c, a: Opaque('BlockDirStats'))
-    add(r'(?:tokio::task::)?spawn::<.*>', spawn_now)
+    add(r'(?:tokio::)?(?:task::)?spawn::<.*>', spawn_now)
 
 
 def spawn_now(ex, c, a):
